@@ -812,6 +812,8 @@ class KeySeam(object):
             rng = np.random.Generator(np.random.PCG64(int.from_bytes(h[:8], 'big')))
             if 'v0' not in kw:
                 kw['v0'] = rng.standard_normal(n)
+            if 'rng' not in kw:
+                kw['rng'] = rng      # ARPACK restarts draw from this generator, not from the OS
             return real(*a, **kw)
         return wrapper
 
